@@ -322,6 +322,24 @@ def run_key(c) -> tuple:
                 add("public-key-default-export", lambda: kd.as_dict())
                 add("keyset-public", lambda: KeySet([kd]).as_dict(private=False))
                 add("public-key-default-export", lambda: KeySet([kd]).as_dict())
+        if ref["kty"] == "EC":
+            # the same private key as a JWK whose coordinates lost their leading zero octets (older libraries emit that form):
+            # where the library takes it, its public exports are as clean as any other
+            from ref.ec import CURVES as _CV
+            full = rk.export_jwk(ref, True)
+            short = dict(full)
+            for m_ in ("x", "y"):
+                raw_ = rb.decode(full[m_]).lstrip(b"\x00") or b"\x00"
+                short[m_] = rb.encode(raw_)
+            if short != full:
+                try:
+                    from joserfc.jwk import ECKey
+                    ksh = ECKey.import_key(short, _params(c["params"]))
+                except Exception:
+                    ksh = None
+                if ksh is not None:
+                    add("public-dict", lambda: ksh.as_dict(private=False))
+                    add("keyset-public", lambda: KeySet([ksh]).as_dict(private=False))
         if c["form"] in ("pem", "der"):
             # a public-only key object that was handed private-flagged members as extra parameters: a public export still has none
             full = rk.export_jwk(ref, True)
@@ -357,7 +375,10 @@ def run_key(c) -> tuple:
     if kpub is not None:
         for name, thunk in [("as_dict", lambda: kpub.as_dict(private=True)), ("as_pem", lambda: kpub.as_pem(private=True)), ("as_der", lambda: kpub.as_der(private=True)),
                             ("as_bytes", lambda: kpub.as_bytes("PEM", private=True)), ("as_pem+password", lambda: kpub.as_pem(private=True, password="pw")),
-                            ("KeySet.as_dict", lambda: KeySet([kpub]).as_dict(private=True))]:
+                            ("KeySet.as_dict", lambda: KeySet([kpub]).as_dict(private=True)),
+                            # a mixed set: symmetric keys before the public-only key
+                            ("KeySet.as_dict:after-oct", lambda: KeySet([jkey({"kty": "oct", "k": bytes(range(32))}, "dict", True), kpub]).as_dict(private=True)),
+                            ("KeySet.as_dict:before-oct", lambda: KeySet([kpub, jkey({"kty": "oct", "k": bytes(range(32))}, "dict", True)]).as_dict(private=True))]:
             kinds.append("private-from-public")
             try:
                 out = thunk()
